@@ -58,11 +58,11 @@ def gen(ctx: common.Ctx, n_hist: int, steps: tuple[int, int], explore: bool = Fa
     tree has been silent over seed sweeps (content edits, cycle-free import graph, imports followed)."""
     tag = ("C03x", ctx.seed) if explore else ("C03", "core" if ctx.tier == "quick" else "tcore")
     for k in range(n_hist):
-        r = common.rng_for(*tag, "h", k)
+        r = (common.rng_for if explore else common.rng_fixed)(*tag, "h", k)
         n = r.randint(*steps)
         follow = "normal" if explore else r.choice(["normal", "normal", "error", "skip"])
         stream = "safe" if explore else ("content" if k % 3 else "structure")
-        h = histgen.history((*tag, k), n_steps=n, n_modules=r.randint(3, 7), cycles=not explore,
+        h = histgen.history((*tag, k), fixed=not explore, n_steps=n, n_modules=r.randint(3, 7), cycles=not explore,
                             ops=SAFE_OPS if explore else (histgen.CONTENT_OPS if stream == "content" else None),
                             packages=not explore, import_forms=["import", "from", "fromas"] if explore else None,
                             kinds=SAFE_KINDS if explore else None, revert_p=0.0 if explore else 0.12)
